@@ -81,7 +81,7 @@ var (
 		"OrderRules": orderRules,
 		"HaveBackrefs": func(def *lexer.StatefulDefinition, state string) bool {
 			for _, rule := range def.Rules()[state] {
-				if codegenBackrefRe.MatchString(rule.Pattern) {
+				if hasBackref(rule.Pattern) {
 					return true
 				}
 			}
@@ -142,7 +142,7 @@ func orderRules(rules lexer.Rules) []orderedRule {
 }
 
 func generateRegexMatch(w io.Writer, lexerName, name, pattern string) error {
-	if codegenBackrefRe.FindStringIndex(pattern) != nil {
+	if hasBackref(pattern) {
 		fmt.Fprintf(w, "func match%s%s(s string, p int, backrefs []string) (groups []int) {\n", lexerName, name)
 		fmt.Fprintf(w, "  re, err := lexer.BackrefRegex(%sBackRefCache, %q, backrefs)\n", lexerName, pattern)
 		fmt.Fprintf(w, "  if err != nil { panic(fmt.Sprintf(\"%%s: %%s\", err, backrefs)) }\n")
@@ -383,6 +383,17 @@ func generateRegexMatch(w io.Writer, lexerName, name, pattern string) error {
 	fmt.Fprintf(w, "return\n")
 	fmt.Fprintf(w, "}\n")
 	return nil
+}
+
+// hasBackref reports whether the pattern contains a back-reference: a digit preceded
+// by an odd number of backslashes. `\\1` is an escaped backslash followed by a literal 1.
+func hasBackref(pattern string) bool {
+	for _, match := range codegenBackrefRe.FindAllStringSubmatch(pattern, -1) {
+		if len(match[1])%2 == 1 {
+			return true
+		}
+	}
+	return false
 }
 
 // This exists because of https://github.com/golang/go/issues/31666
